@@ -347,6 +347,9 @@ type ScenCfg struct {
 	NoRest     bool // do not emit plain tokens that would become remaining arguments
 	MaxOccPer  int
 	PosTextFn  func(r *Rand, a *PosArg) string
+	Focus      *Opt // an option the scenario should mention FocusN times
+	FocusN     int
+	Target     *Cmd // the command the scenario should end in (nil = random walk)
 }
 
 type Scenario struct {
@@ -368,6 +371,7 @@ type walker struct {
 	exp     *Expect
 	items   []*Item
 	occCnt  map[*Opt]int
+	force   bool
 }
 
 func (w *walker) enter(c *Cmd) {
@@ -511,11 +515,24 @@ func GenScenario(r *Rand, d *Decl, cfg *ScenCfg) *Scenario {
 			if cfg.HostileRaw && r.Bool() {
 				tok = rawTokens[r.Intn(len(rawTokens))]
 			}
+			if len(w.pending) > 0 && w.pending[0].T.K != KString {
+				tok = w.posText(w.pending[0]) // typed positional: the verbatim token must be convertible
+			}
 			w.items = append(w.items, &Item{Kind: IRaw, Tok: tok})
 			w.bindPlain(tok)
 			continue
 		}
 		x := r.Intn(100)
+		needCmd := len(w.cur.Subs) > 0 && !w.cur.SubOptional
+		if needCmd && r.Chance(9, 10) {
+			// do not close the vector (terminator / pass-after-non-option) while a sub-command is still due
+			if x >= cfg.POcc+cfg.PCluster+cfg.PPos+cfg.PCmd {
+				x = cfg.POcc + cfg.PCluster + cfg.PPos
+			}
+			if pano && x >= cfg.POcc+cfg.PCluster && x < cfg.POcc+cfg.PCluster+cfg.PPos {
+				x = cfg.POcc + cfg.PCluster + cfg.PPos
+			}
+		}
 		switch {
 		case x < cfg.POcc:
 			opts := w.scope.Addressable(d)
@@ -523,6 +540,13 @@ func GenScenario(r *Rand, d *Decl, cfg *ScenCfg) *Scenario {
 				continue
 			}
 			o := opts[r.Intn(len(opts))]
+			if f := cfg.Focus; f != nil && w.occCnt[f] < cfg.FocusN && r.Bool() {
+				for _, x := range opts {
+					if x == f {
+						o = f
+					}
+				}
+			}
 			if cfg.MaxOccPer > 0 && w.occCnt[o] >= cfg.MaxOccPer {
 				continue
 			}
@@ -569,27 +593,47 @@ func GenScenario(r *Rand, d *Decl, cfg *ScenCfg) *Scenario {
 			}
 		}
 	}
-	// reach a context in which the command line is complete
-	for guard := 0; guard < 8 && !w.passed && len(w.cur.Subs) > 0 && !w.cur.SubOptional; guard++ {
-		// fill pending non-rest positionals so that a command word can follow
-		for len(w.pending) > 0 && !w.pending[0].IsRest() {
-			a := w.pending[0]
-			tok := w.posText(a)
-			if optionShaped(tok) || (pdd && tok == "--") || w.scope.Cmds[tok] != nil {
-				tok = "t1"
-				if a.T.K != KString {
-					tok = GenScalarText(r, a.T.K, 0, 0)
-					if optionShaped(tok) {
-						tok = strings.TrimLeft(tok, "-")
-					}
+	// drive towards the target command and give the focus option its occurrences
+	if t := cfg.Target; t != nil && !w.passed {
+		for guard := 0; guard < 8 && w.cur != t; guard++ {
+			onPath := false
+			for _, x := range t.Chain() {
+				if x.Parent == w.cur {
+					onPath = true
 				}
 			}
-			w.items = append(w.items, &Item{Kind: IPos, Tok: tok})
-			w.bindPlain(tok)
-			if pano {
-				w.passed = true
+			if !onPath {
 				break
 			}
+			for len(w.pending) > 0 && !w.pending[0].IsRest() && !w.passed {
+				w.fillPending(pdd, pano)
+			}
+			if w.passed || !w.tryCmd() {
+				break
+			}
+		}
+	}
+	if f := cfg.Focus; f != nil && !w.passed {
+		for guard := 0; guard < 6 && w.occCnt[f] < cfg.FocusN; guard++ {
+			ok := false
+			for _, x := range w.scope.Addressable(d) {
+				if x == f {
+					ok = true
+				}
+			}
+			if !ok {
+				break
+			}
+			w.occCnt[f]++
+			w.addOcc(f)
+		}
+	}
+	// reach a context in which the command line is complete
+	w.force = true
+	for guard := 0; guard < 8 && !w.passed && len(w.cur.Subs) > 0 && !w.cur.SubOptional; guard++ {
+		// fill pending non-rest positionals so that a command word can follow
+		for len(w.pending) > 0 && !w.pending[0].IsRest() && !w.passed {
+			w.fillPending(pdd, pano)
 		}
 		if w.passed || !w.tryCmd() {
 			break
@@ -599,11 +643,49 @@ func GenScenario(r *Rand, d *Decl, cfg *ScenCfg) *Scenario {
 	return &Scenario{D: d, Items: w.items, Exp: w.exp, Final: w.cur}
 }
 
+// fillPending emits one plain token for the first pending positional.
+func (w *walker) fillPending(pdd, pano bool) {
+	a := w.pending[0]
+	tok := w.posText(a)
+	if optionShaped(tok) || (pdd && tok == "--") || w.scope.Cmds[tok] != nil {
+		tok = "t1"
+		if a.T.K != KString {
+			for i := 0; i < 50; i++ {
+				tok = GenScalarText(w.r, a.T.K, 0, 0)
+				if !optionShaped(tok) {
+					break
+				}
+			}
+		}
+	}
+	w.items = append(w.items, &Item{Kind: IPos, Tok: tok})
+	w.bindPlain(tok)
+	if pano {
+		w.passed = true
+	}
+}
+
 func (w *walker) tryCmd() bool {
 	if len(w.cur.Subs) == 0 || len(w.pending) > 0 || w.rest {
 		return false
 	}
 	sc := w.cur.Subs[w.r.Intn(len(w.cur.Subs))]
+	if t := w.cfg.Target; t != nil {
+		onPath := false
+		for _, x := range t.Chain() {
+			if x.Parent == w.cur {
+				sc = x
+				onPath = true
+			}
+		}
+		if w.force {
+		} else if !onPath && t != w.cur && w.r.Chance(2, 3) {
+			return false
+		}
+		if !w.force && !onPath && t == w.cur && w.r.Chance(3, 4) {
+			return false // stay in the target command most of the time
+		}
+	}
 	via := sc.Name
 	if len(sc.Aliases) > 0 && w.r.Bool() {
 		via = sc.Aliases[w.r.Intn(len(sc.Aliases))]
